@@ -9,6 +9,7 @@ import (
 
 	"github.com/ethereum/go-ethereum/common"
 	"github.com/ethereum/go-ethereum/crypto/ecies"
+	"google.golang.org/protobuf/proto"
 
 	"github.com/shutter-network/shutter/shlib/shcrypto"
 
@@ -492,16 +493,15 @@ func (w *World) indexOf(a common.Address) int {
 // ---------- observation ----------
 
 // Observation is the canonical text of everything a run produced, without the
-// wall-clock column tendermint_sync_meta.sync_timestamp.
+// wall-clock column tendermint_sync_meta.sync_timestamp. Two places where the
+// code under test iterates a Go map are canonicalised, because they do not
+// change what a message or a row means: the (accuser, evaluation) pairs of an
+// apology (puredkg.StartPhase3Apologizing ranges over a map) are sorted, and the
+// gob bytes of a stored PureDKG (maps inside) are reduced to their length.
 func (w *World) Observation() string {
 	var sb strings.Builder
 	for _, t := range w.Chain.Txs {
-		var mh [32]byte
-		if t.Msg != nil {
-			b, _ := protoDet(t.Msg)
-			mh = sha256.Sum256(b)
-		}
-		fmt.Fprintf(&sb, "tx h=%d i=%d from=%d %s nonce=%d check=%d deliver=%d msg=%x\n", t.Height, t.Index, w.indexOf(t.From), Kind(t.Msg), t.Nonce, t.Check, t.Deliver, mh[:8])
+		fmt.Fprintf(&sb, "tx h=%d i=%d from=%d %s nonce=%d check=%d deliver=%d msg=%x\n", t.Height, t.Index, w.indexOf(t.From), Kind(t.Msg), t.Nonce, t.Check, t.Deliver, msgDigest(t.Msg))
 	}
 	for _, i := range w.Honest {
 		k := w.Keypers[i]
@@ -514,12 +514,33 @@ func (w *World) Observation() string {
 	return sb.String()
 }
 
-// DumpDB renders the keyper's committed database without sync timestamps.
+func msgDigest(m *shmsg.Message) []byte {
+	if m == nil {
+		return nil
+	}
+	var b []byte
+	if a := m.GetApology(); a != nil && len(a.Accusers) == len(a.PolyEvals) {
+		var pairs []string
+		for i := range a.Accusers {
+			pairs = append(pairs, fmt.Sprintf("%x=%x", a.Accusers[i], a.PolyEvals[i]))
+		}
+		sort.Strings(pairs)
+		b = []byte(fmt.Sprintf("apology eon=%d %s", a.Eon, strings.Join(pairs, ",")))
+	} else {
+		b, _ = protoDet(m)
+	}
+	h := sha256.Sum256(b)
+	return h[:8]
+}
+
+// DumpDB renders the keyper's committed database without sync timestamps (and
+// with the canonicalisations described at Observation).
 func DumpDB(k *Keyper) string {
 	db := k.DB()
+	special := map[string]bool{"tendermint_sync_meta": true, "puredkg": true, "tendermint_outgoing_messages": true}
 	var names []string
 	for _, t := range db.Tables() {
-		if t != "tendermint_sync_meta" {
+		if !special[t] {
 			names = append(names, t)
 		}
 	}
@@ -531,7 +552,21 @@ func DumpDB(k *Keyper) string {
 		lines = append(lines, fmt.Sprintf("%v|%v", r[0], r[1]))
 	}
 	sort.Strings(lines)
-	sb.WriteString(strings.Join(lines, "\n"))
-	sb.WriteString("\n")
+	sb.WriteString(strings.Join(lines, "\n") + "\n")
+	sb.WriteString("## puredkg (eon, length of the gob)\n")
+	lines = lines[:0]
+	for _, r := range db.Rows("puredkg") {
+		b, _ := r[1].([]byte)
+		lines = append(lines, fmt.Sprintf("%v|%d", r[0], len(b)))
+	}
+	sort.Strings(lines)
+	sb.WriteString(strings.Join(lines, "\n") + "\n")
+	sb.WriteString("## tendermint_outgoing_messages (id, description, message)\n")
+	ids, descs, raws := Outbox(k)
+	for i := range ids {
+		m := &shmsg.Message{}
+		_ = proto.Unmarshal(raws[i], m)
+		fmt.Fprintf(&sb, "%d|%s|%x\n", ids[i], descs[i], msgDigest(m))
+	}
 	return sb.String()
 }
